@@ -1,6 +1,118 @@
-(* C03 - placeholder while the proofs are being written *)
-From DnsV Require Import Base.Bytes Base.Ip Spec.Lpm.
+(* C03 - Client-to-location mapping is longest-prefix match over declared subnets.
+   This file holds only theorem statements closed by [exact]; the proofs are in
+   Proofs/Lpm.v (blocks, lpm), Proofs/Sweep.v (the location stack over a laminar
+   family), Proofs/Squash.v, Proofs/Rearranger.v (Rearrange = lpm) and
+   Proofs/Location.v (CDB lookup, map choice).
+
+   Guard wf_subnets (Proofs/Location.v, decidable, Example C03_wf_subnets_example):
+   every subnet has length <= 128 and a 16-byte network address without host bits,
+   no (address, length) is declared twice, and no IPv6 subnet of length 1..95
+   contains ::ffff:0:0 (known finding F20, see the two C03_rdb_is_lpm_refuted theorems). *)
+From DnsV Require Import Base.Bytes Base.Ip Spec.Lpm Model.Rearranger Model.Location.
+From DnsV Require Import Proofs.Lpm Proofs.Location Proofs.Rearranger.
+From Coq Require Import Permutation.
 Open Scope N_scope.
-Theorem C03_tmp : lpm [] V4 0 0 = None.
-Proof. reflexivity. Qed.
-Print Assumptions C03_tmp.
+
+(* ---- the two lemmas that carry the geometry (quotient form of a block) *)
+Theorem C03_laminar : forall s t x, s_len s <= s_len t -> s_len t <= 128 ->
+  contains s x = true -> contains t x = true -> forall y, contains t y = true -> contains s y = true.
+Proof. exact laminar. Qed.
+Print Assumptions C03_laminar.
+
+Theorem C03_straddle : forall s x p, s_len s <= 128 -> p <= 128 -> 0 < x -> masked x p ->
+  contains s (x - 1) = true -> contains s x = true -> s_len s < p.
+Proof. exact straddle. Qed.
+Print Assumptions C03_straddle.
+
+(* ---- the hypotheses are satisfiable *)
+Theorem C03_wf_subnets_example :
+  wf_subnets [mkSubnet 0 0 (0, 1); mkSubnet first_v4 96 (0, 2);
+              mkSubnet (first_v4 + 10 * 2 ^ 24) 104 (0, 3); mkSubnet (first_v4 + 10 * 2 ^ 24 + 2 ^ 8) 120 (0, 4);
+              mkSubnet (first_v4 + 10 * 2 ^ 24) 112 (0, 5); mkSubnet (first_v4 + 11 * 2 ^ 24) 104 (0, 6);
+              mkSubnet (2 ^ 128 - 1) 128 (0, 7); mkSubnet (2 ^ 127) 1 (0, 8);
+              mkSubnet 0 96 (0, 9); mkSubnet (first_v4) 104 (0, 10)].
+Proof. exact wf_subnets_example. Qed.
+Print Assumptions C03_wf_subnets_example.
+
+(* sort.Slice: any function returning a sorted permutation; insertion sort is one *)
+Theorem C03_sort_spec_satisfiable : sort_spec isort.
+Proof. exact isort_spec. Qed.
+Print Assumptions C03_sort_spec_satisfiable.
+
+(* ---- RocksDB side: the range points Rearrange derives, read by predecessor search
+   (greatest (address, mask byte) <= (masked client address, client prefix length)),
+   give exactly lpm - for every sorted permutation sort.Slice may return; Rearrange
+   never panics on a well-formed set *)
+Theorem C03_rdb_is_lpm : forall sort S a plen,
+  sort_spec sort -> wf_subnets S -> a < two128 -> plen <= 128 -> masked a plen ->
+  exists pts, rearrange sort S = Ok pts /\ pt_locate pts a plen = lpm S (fam a) a plen.
+Proof. exact rearrange_is_lpm. Qed.
+Print Assumptions C03_rdb_is_lpm.
+
+(* outside the guard the faithful model violates the property (finding F20):
+   ::/64 alone, client ::1:0:0:1 inside it gets no location *)
+Theorem C03_rdb_is_lpm_refuted_inside :
+  exists S a plen, wf_but_overlap S = true /\ a < two128 /\ plen <= 128 /\ masked a plen /\
+    exists pts, rearrange isort S = Ok pts /\ pt_locate pts a plen = None /\
+                lpm S (fam a) a plen = Some ((0, 1), 64).
+Proof. exact rearrange_lpm_refuted_inside. Qed.
+Print Assumptions C03_rdb_is_lpm_refuted_inside.
+
+(* ::/1 alone, client 8000:: outside every subnet gets its location *)
+Theorem C03_rdb_is_lpm_refuted_outside :
+  exists S a plen, wf_but_overlap S = true /\ a < two128 /\ plen <= 128 /\ masked a plen /\
+    exists pts, rearrange isort S = Ok pts /\ pt_locate pts a plen = Some ((0, 1), 1) /\
+                lpm S (fam a) a plen = None.
+Proof. exact rearrange_lpm_refuted_outside. Qed.
+Print Assumptions C03_rdb_is_lpm_refuted_outside.
+
+(* ---- the lookup function does not depend on the order of AddLocation calls
+   (parallel parser workers) nor on the sorted permutation chosen by sort.Slice *)
+Theorem C03_rearrange_order_independent : forall sort sort' S S' a plen,
+  sort_spec sort -> sort_spec sort' -> wf_subnets S -> Permutation S S' ->
+  a < two128 -> plen <= 128 -> masked a plen ->
+  exists pts pts', rearrange sort S = Ok pts /\ rearrange sort' S' = Ok pts' /\
+                   pt_locate pts a plen = pt_locate pts' a plen.
+Proof. exact rearrange_order_independent. Qed.
+Print Assumptions C03_rearrange_order_independent.
+
+(* ---- CDB side, both prefix-set modes (sep = per-family sets): descending prefix
+   lengths <= the client prefix, mask, exact get - on the database compiled from the
+   data file.  The client is given as the callers build it (128-bit mask, or 32-bit
+   mask on a v4-mapped address); the driver masks the address itself. *)
+Theorem C03_cdb_is_lpm : forall sep f m db a bits ones plen,
+  wf_kinds f = true -> wf_addrs f = true -> wf_subnets (nets_of f m) -> cdb_db f = Some db ->
+  a < two128 -> client_plen a bits ones plen ->
+  cdb_get_location sep db m (mkClient (Some a) bits ones) =
+  Ok (lpm_result (lpm (nets_of f m) (fam (clean_mask a plen)) (clean_mask a plen) plen)).
+Proof. exact cdb_is_lpm. Qed.
+Print Assumptions C03_cdb_is_lpm.
+
+(* ---- name-to-map step: exact-name map first, else the nearest enclosing wildcard map.
+   [Hget] says that the M / 8 records of the database are exactly the declarations
+   (enc = how a value is stored); C03_cdb_map_records shows it for the compiled CDB. *)
+Theorem C03_map_choice_v1 : forall decls kind db,
+  (forall n wild, wf_labelsb n = true ->
+     get db ([0; kind] ++ pack_labels n ++ [suffix_of wild]) =
+     option_map (fun id => mv1 (mapid_bytes id)) (lookup_decl decls kind wild n)) ->
+  forall ls, wf_labelsb ls = true ->
+  v1_find_map db [0; kind] (pack_labels ls) = Ok (option_map mapid_bytes (map_choice decls kind ls)).
+Proof. intros decls kind db H ls W. exact (v1_find_map_choice decls kind db mv1 H ls W eq_refl). Qed.
+Print Assumptions C03_map_choice_v1.
+
+Theorem C03_map_choice_cdb : forall decls kind db,
+  (forall n wild, wf_labelsb n = true ->
+     get db ([0; kind] ++ pack_labels n ++ [suffix_of wild]) =
+     option_map (fun id => mapid_bytes id) (lookup_decl decls kind wild n)) ->
+  forall ls, wf_labelsb ls = true ->
+  cdb_find_map (S (length (pack_labels ls))) db [0; kind] (pack_labels ls) true =
+  Ok (option_map mapid_bytes (map_choice decls kind ls)).
+Proof. intros decls kind db H ls W. exact (cdb_find_map_choice decls kind db (fun v => v) H ls W eq_refl). Qed.
+Print Assumptions C03_map_choice_cdb.
+
+Theorem C03_cdb_map_records : forall f decls db kind n wild,
+  f_maps f = map decl_line decls -> forallb wf_declb decls = true -> cdb_db f = Some db ->
+  kind = 77 \/ kind = 56 -> wf_labelsb n = true ->
+  get db (v1_map_key kind n wild) = option_map (fun id => mapid_bytes id) (lookup_decl decls kind wild n).
+Proof. exact cdb_map_records. Qed.
+Print Assumptions C03_cdb_map_records.
